@@ -129,6 +129,8 @@ def steepest_descent(A, b, x0=None, tol=1e-5, criteria='rr',
     elif criteria == 'MrMr':
         normr = norm(z)
         normMb = norm(M @ b)
+        if normMb == 0.0:
+            normMb = 1.0  # absolute tolerance, as for ||b|| = 0
         rtol = tol * normMb
     elif criteria == 'rMr':
         normr = np.sqrt(rz)
